@@ -237,7 +237,34 @@ pub fn lattice(rng: &mut Rng, max_n: usize) -> Abs {
 }
 
 /// Dense shapes: complete and near-complete digraphs, stars, shared defender sets.
+/// A target with many attackers, each of them attacked by many defenders taken from a shared
+/// pool: the product of the defender-set sizes is astronomically large (beyond 2^64 for the larger
+/// shapes), which is what the hybrid encoder's switching test and any size arithmetic must survive.
+pub fn heavy_fan_in(rng: &mut Rng) -> Abs {
+    let (m, d) = *rng.pick(&[(13usize, 32usize), (16, 16), (20, 4), (64, 2), (70, 4), (8, 8), (33, 3)]);
+    let n = 1 + m + d;
+    let mut att = Vec::new();
+    for i in 0..m {
+        att.push((1 + i, 0));
+        for j in 0..d {
+            att.push((1 + m + j, 1 + i));
+        }
+    }
+    // some structure among the defenders so that the answers are not all grounded
+    if d >= 2 {
+        att.push((1 + m, 1 + m + 1));
+        att.push((1 + m + 1, 1 + m));
+    }
+    if rng.pct(50) {
+        att.push((0, 1 + m));
+    }
+    shuffle_labels(&Abs::new(n, att), rng)
+}
+
 pub fn dense(rng: &mut Rng, max_n: usize) -> Abs {
+    if max_n >= 9 && rng.pct(4) {
+        return heavy_fan_in(rng);
+    }
     match rng.below(4) {
         0 => {
             let n = rng.range(2, max_n.clamp(2, 7));
